@@ -470,6 +470,21 @@ func (f *Fixture) Witness(timeout time.Duration) error {
 	return nil
 }
 
+// Responsive measures whether the proxy's event loop answers a locally served request on a fresh connection.
+func (f *Fixture) Responsive(timeout time.Duration) error {
+	if !f.Proxy.Alive() {
+		return fmt.Errorf("proxy not running")
+	}
+	rep, err := rclient.RoundTrip(f.Proxy.Addr(), timeout, "PING")
+	if err != nil {
+		return err
+	}
+	if string(rep) != "+PONG\r\n" {
+		return fmt.Errorf("PING answered %q", rep)
+	}
+	return nil
+}
+
 // Nonce returns a string unique per call within this process, used to make keys of different cases distinct.
 func (f *Fixture) Nonce() string {
 	f.nonce++
